@@ -317,7 +317,9 @@ func buildC15(tier string) *core.Plan {
 		map[string]any{"x": 1, "l": []any{1, 2, 3}, "y": 2, "z": 0}, // additions
 	}
 	inheritSpace := core.Space{Name: "cli-base-with-parent-layers", N: int64(len(inheritTargets)) * 2, Chunk: 1,
-		Desc: func(i int64) any { return map[string]any{"target": inheritTargets[i/2], "base_inherits_by": []string{"filename", "$parent"}[i%2]} },
+		Desc: func(i int64) any {
+			return map[string]any{"target": inheritTargets[i/2], "base_inherits_by": []string{"filename", "$parent"}[i%2]}
+		},
 		Run: func(c *core.Ctx, i int64) {
 			target := inheritTargets[i/2]
 			dir := scratchDir()
